@@ -117,7 +117,7 @@ def run(ctx):
         pyhf.set_backend('numpy', precision='64b')
         hi = (nspec + njax) if jax_pass else min(nspec, done + 100)
         for i in range(done, hi):
-            spec0, info = gen_spec.gen_spec(rng, cross_channel_stat=True)
+            spec0, info = gen_spec.gen_spec(rng, cross_channel_stat=True, zero_stat_unc=True)
             histo = rng.choice(['0', '2', '4p']); norm = rng.choice(['1', '4'])
             err, m0 = enga.impl_model(pyhf, spec0, enga.impl_kwargs(histo, norm))
             if m0 is None:
